@@ -43,7 +43,20 @@ impl Quat {
     /// Returns the identity quaternion when the axis length is ≤ `EPSILON` to avoid
     /// undefined orientations and preserve deterministic behaviour. No small-angle approximation is applied.
     pub fn from_axis_angle(axis: Vec3, angle: f32) -> Self {
-        let len_sq = axis.length_squared();
+        let mut axis = axis;
+        let mut len_sq = axis.length_squared();
+        if len_sq.is_infinite() {
+            // The squared length overflowed `f32` although every component may be finite
+            // (|axis| > ~1.8e19). Divide by the largest component magnitude (exact for that
+            // component, every quotient is within [-1, 1]) and measure again. Axes whose
+            // squared length is finite take the unchanged path below.
+            let [x, y, z] = axis.to_array();
+            let m = x.abs().max(y.abs()).max(z.abs());
+            if m.is_finite() {
+                axis = Vec3::new(x / m, y / m, z / m);
+                len_sq = axis.length_squared();
+            }
+        }
         if len_sq <= EPSILON * EPSILON {
             return Self::identity();
         }
